@@ -425,6 +425,61 @@ func checkDeleteTimeRange(r *Run, p *Prog, la *LockAnalysis) {
 		for e := range c.EdgesEstablishing(func(atom ast.Expr, val bool) bool { return val && legit(atom) }) {
 			skip[e] = true
 		}
+		// the same test extracted into a package-local predicate "is a dependant of ch": its
+		// false result is "the index itself or not indexed by it" when every conjunct of its
+		// one return, negated, is one of the two legitimate atoms (parameters stand for the
+		// arguments)
+		legitIn := func(h *FuncNode, idx, key types.Object, atom ast.Expr) bool {
+			be, ok := ast.Unparen(atom).(*ast.BinaryExpr)
+			if !ok || idx == nil || !exprMentions(h, be, idx) {
+				return false
+			}
+			switch be.Op {
+			case token.NEQ: // negated: ==
+				return key != nil && exprMentions(h, be, key)
+			case token.EQL: // negated: !=
+				isIndexSel := false
+				ast.Inspect(be, func(x ast.Node) bool {
+					if sl, ok := x.(*ast.SelectorExpr); ok && sl.Sel.Name == "Index" {
+						isIndexSel = true
+					}
+					return true
+				})
+				return isIndexSel
+			}
+			return false
+		}
+		for e := range c.EdgesEstablishing(func(atom ast.Expr, val bool) bool {
+			call, ok := ast.Unparen(atom).(*ast.CallExpr)
+			if !ok || val {
+				return false
+			}
+			h := p.ByObj[CalleeFunc(fn, call)]
+			if h == nil || h.Body == nil || h.Pkg != fn.Pkg || len(h.Body.List) != 1 {
+				return false
+			}
+			ret, ok := h.Body.List[0].(*ast.ReturnStmt)
+			if !ok || len(ret.Results) != 1 {
+				return false
+			}
+			var hIdx, hKey types.Object
+			for i, a := range call.Args {
+				switch objOf(fn, a) {
+				case idxKeyVar:
+					hIdx = paramObj(h, i)
+				case keyVar:
+					hKey = paramObj(h, i)
+				}
+			}
+			for _, cj := range conjuncts(ret.Results[0]) {
+				if !legitIn(h, hIdx, hKey, cj) {
+					return false
+				}
+			}
+			return hIdx != nil
+		}) {
+			skip[e] = true
+		}
 		ok := overUnary && head != nil && body != nil
 		var path []string
 		if ok {
